@@ -150,6 +150,28 @@ def run_property(prop, tier, seed, only=None):
                             'failure_signatures': sorted(res.failures),
                             'outcome_classes': len(res.obs_classes) or None})
         total.merge(res)
+    # --- checks of the module that are not path explorations (Float64 SMT queries)
+    extra_ev = {}
+    if hasattr(mod, 'extra_checks') and not only:
+        try:
+            xv, extra_ev, xerr = mod.extra_checks(tier, seed)
+            errors.extend(xerr)
+            for v in xv:
+                match = next((k for k in known if k.get('status') == 'finding'
+                              and fnmatch.fnmatchcase(v['signature'], k['signature'])), None)
+                if match:
+                    known_hit.append((match, v['signature'], v))
+                    continue
+                rid = hashlib.sha256(v['signature'].encode()).hexdigest()[:10]
+                rpath = os.path.join('replays', f'{prop}-{rid}.json')
+                with open(os.path.join(HERE, rpath), 'w') as out:
+                    json.dump({'property': prop, 'harness': v['harness'], 'tier': tier, 'params': {},
+                               'tag': v['tag'], 'signature': v['signature'], 'inputs': v['inputs'],
+                               'detail': v['detail']}, out, indent=1, default=repr)
+                violations.append((v['signature'], v, rpath))
+        except Exception as exc:
+            import traceback as _tb
+            errors.append(f'extra_checks: {exc} {_tb.format_exc()[-600:]}')
     wall = _now() - t0
     # --- evidence
     all_funcs = {}
@@ -180,12 +202,7 @@ def run_property(prop, tier, seed, only=None):
         'wall_s': round(wall, 2),
         'violations': len(violations),
     }
-    extra = getattr(mod, 'extra_evidence', None)
-    if extra:
-        try:
-            evidence['coverage'].update(extra(tier))
-        except Exception as exc:
-            errors.append(f'extra_evidence: {exc}')
+    evidence['coverage'].update(extra_ev)
     if evidence['coverage']['states'] < 1:
         evidence['coverage']['states'] = 1
     if evidence['coverage']['transitions'] < 1:
@@ -221,6 +238,14 @@ def replay(prop, path):
     with open(path) as f:
         rec = json.load(f)
     mod = importlib.import_module(f'harness.{prop.lower()}')
+    if rec['harness'] == 'fp':
+        bad, detail = mod.replay_extra(rec)
+        print(json.dumps({'inputs': rec['inputs'], 'result': detail}, default=repr, indent=1))
+        if bad:
+            print(f'VIOLATION property={prop} replay={path}')
+            return 1
+        print(f'replay: the recorded inputs no longer violate {prop} ({rec["signature"]})')
+        return 0
     h = next(x for x in mod.HARNESSES if x.name == rec['harness'])
     fail, obs, _ = run_concrete(h.scenario, rec['params'], rec['inputs'])
     print(json.dumps({'inputs': rec['inputs'], 'observations': obs}, default=repr, indent=1)[:4000])
